@@ -70,6 +70,9 @@ type director struct {
 	// asynchronously, so a bystander sent for one request can be consumed
 	// by the next request to the same peer.
 	reserved map[chainhash.Hash]bool
+	// nextFn, when set, decides the step for a request instead of the plan
+	// (ban-history scenarios); called with d.mu held.
+	nextFn func(peer int, key streamKey) Step
 }
 
 func (d *director) setStreams(m map[streamKey][]Step) {
@@ -100,6 +103,9 @@ func (d *director) mutate(p *netsim.Peer, req wire.Message, honest []wire.Messag
 }
 
 func (d *director) next(peer int, key streamKey) Step {
+	if d.nextFn != nil {
+		return d.nextFn(peer, key)
+	}
 	if d.plan.Mode == "per-peer" {
 		ro := d.plan.Roles[peer]
 		i := d.rolePos[peer]
@@ -318,6 +324,51 @@ type blkInfo struct {
 	ntx int
 }
 
+// execCalls issues the calls concurrently and waits for all of them (or
+// their watchdogs).
+func execCalls(w *l2.World, recs []*callRec) {
+	var wg sync.WaitGroup
+	for _, rec := range recs {
+		rec := rec
+		wg.Add(1)
+		go func() {
+			defer wg.Done()
+			var qo []neutrino.QueryOption
+			if rec.Plan.Retries > 0 {
+				qo = append(qo, neutrino.NumRetries(rec.Plan.Retries))
+			}
+			if rec.Plan.Base {
+				qo = append(qo, neutrino.Encoding(wire.BaseEncoding))
+			}
+			type ret struct {
+				b   *btcutil.Block
+				err error
+			}
+			ch := make(chan ret, 1)
+			t0 := time.Now()
+			rec.Start = w.Log.Add("client", "ev", "c06-call", fmt.Sprintf("start id=%d h=%d base=%v", rec.Plan.ID, rec.Height, rec.Plan.Base))
+			go func() {
+				b, err := w.Svc.GetBlock(rec.Hash, qo...)
+				ch <- ret{b, err}
+			}()
+			select {
+			case r := <-ch:
+				rec.End = w.Log.Add("client", "ev", "c06-call", fmt.Sprintf("end id=%d ok=%v", rec.Plan.ID, r.err == nil))
+				rec.DurMs = time.Since(t0).Milliseconds()
+				rec.blk = r.b
+				rec.OK = r.err == nil
+				if r.err != nil {
+					rec.Err = r.err.Error()
+				}
+			case <-time.After(120 * time.Second):
+				rec.End = w.Log.Add("client", "ev", "c06-call", fmt.Sprintf("watchdog id=%d", rec.Plan.ID))
+				rec.Hung = true
+			}
+		}()
+	}
+	wg.Wait()
+}
+
 // Scenario runs scenario k of the (seed, tier) case list in this process.
 func Scenario(seed int64, k int, res *l2.Result) {
 	plan := MakePlan(seed, k)
@@ -501,46 +552,7 @@ func Scenario(seed int64, k int, res *l2.Result) {
 			calls = append(calls, rec)
 		}
 		d.setStreams(streams)
-		var wg sync.WaitGroup
-		for _, rec := range recs {
-			rec := rec
-			wg.Add(1)
-			go func() {
-				defer wg.Done()
-				var qo []neutrino.QueryOption
-				if rec.Plan.Retries > 0 {
-					qo = append(qo, neutrino.NumRetries(rec.Plan.Retries))
-				}
-				if rec.Plan.Base {
-					qo = append(qo, neutrino.Encoding(wire.BaseEncoding))
-				}
-				type ret struct {
-					b   *btcutil.Block
-					err error
-				}
-				ch := make(chan ret, 1)
-				t0 := time.Now()
-				rec.Start = w.Log.Add("client", "ev", "c06-call", fmt.Sprintf("start id=%d h=%d base=%v", rec.Plan.ID, rec.Height, rec.Plan.Base))
-				go func() {
-					b, err := w.Svc.GetBlock(rec.Hash, qo...)
-					ch <- ret{b, err}
-				}()
-				select {
-				case r := <-ch:
-					rec.End = w.Log.Add("client", "ev", "c06-call", fmt.Sprintf("end id=%d ok=%v", rec.Plan.ID, r.err == nil))
-					rec.DurMs = time.Since(t0).Milliseconds()
-					rec.blk = r.b
-					rec.OK = r.err == nil
-					if r.err != nil {
-						rec.Err = r.err.Error()
-					}
-				case <-time.After(120 * time.Second):
-					rec.End = w.Log.Add("client", "ev", "c06-call", fmt.Sprintf("watchdog id=%d", rec.Plan.ID))
-					rec.Hung = true
-				}
-			}()
-		}
-		wg.Wait()
+		execCalls(w, recs)
 		for _, rec := range recs {
 			if rec.Hung {
 				aborted = true
@@ -565,42 +577,7 @@ func Scenario(seed int64, k int, res *l2.Result) {
 	}
 
 	// (2) every cache entry is the true block under its key.
-	cacheChecked := 0
-	w.Svc.BlockCache.Range(func(iv wire.InvVect, cb *neutrino.CacheableBlock) bool {
-		cacheChecked++
-		n := w.G.Lookup(iv.Hash)
-		got := cb.Block.MsgBlock()
-		keyKind := "witness-key"
-		bad := ""
-		switch {
-		case n == nil || n.Block == nil:
-			bad = "is stored under a hash that is no block of the chain"
-		case got.BlockHash() != iv.Hash:
-			bad = "has a header hash different from its key"
-		case iv.Type == wire.InvTypeWitnessBlock:
-			if !bytes.Equal(ser(got, false), ser(n.Block, false)) {
-				bad = "differs from the true block (witness serialisation) — " + diffWhat(got, n.Block)
-			}
-		case iv.Type == wire.InvTypeBlock:
-			keyKind = "base-key"
-			if !bytes.Equal(ser(got, true), ser(n.Block, true)) {
-				bad = "differs from the true block (non-witness serialisation) — " + diffWhat(got, n.Block)
-			} else if !bytes.Equal(ser(got, false), ser(n.Block, false)) {
-				// The statement demands a valid witness commitment of every
-				// block handed out: a block of a chain block that carries
-				// witness data, cached with stripped or altered witness data,
-				// has none.
-				bad = "has the right transactions but not the true witness data, so its witness commitment is invalid — " + diffWhat(got, n.Block)
-			}
-		default:
-			bad = fmt.Sprintf("is stored under an unexpected inv type %v", iv.Type)
-		}
-		if bad != "" {
-			res.Violate(evid.Sig("c06/cache-entry-invalid", keyKind, kindsFor(d, iv.Hash)),
-				fmt.Sprintf("block cache entry for %s %s", iv.Hash.String()[:12], bad), witness(nil))
-		}
-		return true
-	})
+	cacheChecked := checkCache(res, w, d, witness)
 	res.Count("cache_entries_verified", int64(cacheChecked))
 
 	liveBanned := map[string]bool{}
@@ -852,7 +829,6 @@ func Scenario(seed int64, k int, res *l2.Result) {
 			}
 		}
 		outcome := "err"
-		truth := w.G.Lookup(c.Hash)
 		if c.OK {
 			outcome = "ok"
 			if len(mine) == 0 {
@@ -861,36 +837,7 @@ func Scenario(seed int64, k int, res *l2.Result) {
 			}
 			res.Count("successes", 1)
 			nontrivial = true
-			got := c.blk.MsgBlock()
-			switch {
-			case c.Plan.Unknown:
-				res.Violate(evid.Sig("c06/returned-block-for-unknown-hash"),
-					"GetBlock returned a block for a hash the client has no header for", wit())
-			case got.BlockHash() != c.Hash || *c.blk.Hash() != c.Hash:
-				res.Violate(evid.Sig("c06/returned-block-differs", "header-hash", strings.Join(steps, ","), witStr(w, c.Hash)),
-					fmt.Sprintf("GetBlock(%s) returned a block whose header hash is %s", c.HashStr, got.BlockHash().String()[:12]), wit())
-			case !c.Plan.Base && !bytes.Equal(ser(got, false), ser(truth.Block, false)):
-				res.Violate(evid.Sig("c06/returned-block-differs", diffWhat(got, truth.Block), strings.Join(steps, ","), witStr(w, c.Hash)),
-					fmt.Sprintf("GetBlock(%s) (height %d) returned a block that is not the block with that hash: %s (witness serialisations differ; answers seen by this call: %v)",
-						c.HashStr, c.Height, diffWhat(got, truth.Block), steps), wit())
-			case c.Plan.Base && !bytes.Equal(ser(got, true), ser(truth.Block, true)):
-				res.Violate(evid.Sig("c06/returned-block-differs", "base:"+diffWhat(got, truth.Block), strings.Join(steps, ","), witStr(w, c.Hash)),
-					fmt.Sprintf("GetBlock(%s, BaseEncoding) returned a block whose non-witness serialisation differs from the true block: %s", c.HashStr, diffWhat(got, truth.Block)), wit())
-			case c.Plan.Base && !bytes.Equal(ser(got, false), ser(truth.Block, false)):
-				// Same transactions, different (stripped or forged) witness
-				// data: the returned block's witness commitment is invalid.
-				res.Violate(evid.Sig("c06/returned-block-invalid-witness-commitment", "base-encoding", diffWhat(got, truth.Block)),
-					fmt.Sprintf("GetBlock(%s, BaseEncoding) returned the right transactions with witness data that does not match the block's witness commitment: %s", c.HashStr, diffWhat(got, truth.Block)), wit())
-			case !validSeen:
-				res.Violate(evid.Sig("c06/returned-without-valid-response", strings.Join(steps, ",")),
-					fmt.Sprintf("GetBlock(%s) returned a block although no peer had sent the true block for that hash and encoding before the call ended", c.HashStr), wit())
-			default:
-				if c.Plan.Base {
-					res.Count("returned_blocks_identical_nonwitness_serialisation", 1)
-				} else {
-					res.Count("returned_blocks_identical_witness_serialisation", 1)
-				}
-			}
+			checkReturned(res, w, c, steps, validSeen, wit)
 			c.Verdict = "ok"
 		} else {
 			res.Count("errors", 1)
@@ -996,6 +943,85 @@ func Scenario(seed int64, k int, res *l2.Result) {
 		}
 		for _, b := range bans {
 			fmt.Fprintf(os.Stderr, "ban %+v\n", b)
+		}
+	}
+}
+
+// checkCache is oracle rule (2): every block cache entry is the true block
+// under its key. It returns the number of entries looked at.
+func checkCache(res *l2.Result, w *l2.World, d *director, witness func(map[string]any) any) int {
+	cacheChecked := 0
+	w.Svc.BlockCache.Range(func(iv wire.InvVect, cb *neutrino.CacheableBlock) bool {
+		cacheChecked++
+		n := w.G.Lookup(iv.Hash)
+		got := cb.Block.MsgBlock()
+		keyKind := "witness-key"
+		bad := ""
+		switch {
+		case n == nil || n.Block == nil:
+			bad = "is stored under a hash that is no block of the chain"
+		case got.BlockHash() != iv.Hash:
+			bad = "has a header hash different from its key"
+		case iv.Type == wire.InvTypeWitnessBlock:
+			if !bytes.Equal(ser(got, false), ser(n.Block, false)) {
+				bad = "differs from the true block (witness serialisation) — " + diffWhat(got, n.Block)
+			}
+		case iv.Type == wire.InvTypeBlock:
+			keyKind = "base-key"
+			if !bytes.Equal(ser(got, true), ser(n.Block, true)) {
+				bad = "differs from the true block (non-witness serialisation) — " + diffWhat(got, n.Block)
+			} else if !bytes.Equal(ser(got, false), ser(n.Block, false)) {
+				// The statement demands a valid witness commitment of every
+				// block handed out: a block of a chain block that carries
+				// witness data, cached with stripped or altered witness data,
+				// has none.
+				bad = "has the right transactions but not the true witness data, so its witness commitment is invalid — " + diffWhat(got, n.Block)
+			}
+		default:
+			bad = fmt.Sprintf("is stored under an unexpected inv type %v", iv.Type)
+		}
+		if bad != "" {
+			res.Violate(evid.Sig("c06/cache-entry-invalid", keyKind, kindsFor(d, iv.Hash)),
+				fmt.Sprintf("block cache entry for %s %s", iv.Hash.String()[:12], bad), witness(nil))
+		}
+		return true
+	})
+	return cacheChecked
+}
+
+// checkReturned is oracle rule (1) for one successful call: the returned
+// block is the generator's block for the requested hash, and something valid
+// had been sent for it.
+func checkReturned(res *l2.Result, w *l2.World, c *callRec, steps []string, validSeen bool, wit func() any) {
+	truth := w.G.Lookup(c.Hash)
+	got := c.blk.MsgBlock()
+	switch {
+	case c.Plan.Unknown:
+		res.Violate(evid.Sig("c06/returned-block-for-unknown-hash"),
+			"GetBlock returned a block for a hash the client has no header for", wit())
+	case got.BlockHash() != c.Hash || *c.blk.Hash() != c.Hash:
+		res.Violate(evid.Sig("c06/returned-block-differs", "header-hash", strings.Join(steps, ","), witStr(w, c.Hash)),
+			fmt.Sprintf("GetBlock(%s) returned a block whose header hash is %s", c.HashStr, got.BlockHash().String()[:12]), wit())
+	case !c.Plan.Base && !bytes.Equal(ser(got, false), ser(truth.Block, false)):
+		res.Violate(evid.Sig("c06/returned-block-differs", diffWhat(got, truth.Block), strings.Join(steps, ","), witStr(w, c.Hash)),
+			fmt.Sprintf("GetBlock(%s) (height %d) returned a block that is not the block with that hash: %s (witness serialisations differ; answers seen by this call: %v)",
+				c.HashStr, c.Height, diffWhat(got, truth.Block), steps), wit())
+	case c.Plan.Base && !bytes.Equal(ser(got, true), ser(truth.Block, true)):
+		res.Violate(evid.Sig("c06/returned-block-differs", "base:"+diffWhat(got, truth.Block), strings.Join(steps, ","), witStr(w, c.Hash)),
+			fmt.Sprintf("GetBlock(%s, BaseEncoding) returned a block whose non-witness serialisation differs from the true block: %s", c.HashStr, diffWhat(got, truth.Block)), wit())
+	case c.Plan.Base && !bytes.Equal(ser(got, false), ser(truth.Block, false)):
+		// Same transactions, different (stripped or forged) witness
+		// data: the returned block's witness commitment is invalid.
+		res.Violate(evid.Sig("c06/returned-block-invalid-witness-commitment", "base-encoding", diffWhat(got, truth.Block)),
+			fmt.Sprintf("GetBlock(%s, BaseEncoding) returned the right transactions with witness data that does not match the block's witness commitment: %s", c.HashStr, diffWhat(got, truth.Block)), wit())
+	case !validSeen:
+		res.Violate(evid.Sig("c06/returned-without-valid-response", strings.Join(steps, ",")),
+			fmt.Sprintf("GetBlock(%s) returned a block although no peer had sent the true block for that hash and encoding before the call ended", c.HashStr), wit())
+	default:
+		if c.Plan.Base {
+			res.Count("returned_blocks_identical_nonwitness_serialisation", 1)
+		} else {
+			res.Count("returned_blocks_identical_witness_serialisation", 1)
 		}
 	}
 }
